@@ -337,10 +337,13 @@ package rib
 // ---- BEGIN Get (C07), generated by /verif/tools/gen_get_contracts.py ----
 // convFailed: whether the latest struct -> proto conversion reported an error (ghost record of protoFromGoStruct's verdict)
 //@ ghostvar convFailed Bool
+// convEverFailed: sticky - some conversion has failed so far (for callers that convert many entries)
+//@ ghostvar convEverFailed Bool
 //@ unit protoFromGoStruct
 //@ trusted the ygot struct -> gNMI notifications -> proto pipeline (ygot.TogNMINotifications, protomap.ProtoFromPaths) is reflection over generated schemas and outside the verifier's reach; it writes only into pb, which every caller allocates immediately before the call and whose content no contract refers to (entry payload is abstract: field-for-field payload fidelity is NOT decided)
 //@ ensures[verdict-recorded] convFailed <==> result0 != nil
-//@ assigns convFailed
+//@ ensures[failure-remembered] convEverFailed <==> (old(convEverFailed) || result0 != nil)
+//@ assigns convFailed, convEverFailed
 
 //@ pred keyed_v4(E *aft.Afts_Ipv4Entry, k string) = E != nil && E.Prefix != nil && *E.Prefix == k
 //@ pred keyed_v6(E *aft.Afts_Ipv6Entry, k string) = E != nil && E.Prefix != nil && *E.Prefix == k
@@ -372,7 +375,8 @@ package rib
 //@ ensures[key] result1 == nil ==> result0 != nil && fresh(result0) && result0.Prefix == *e.Prefix && result0.Ipv4Entry != nil
 //@ ensures[err] result1 != nil ==> result0 == nil
 //@ ensures[fails-only-when-conversion-fails] result1 != nil <==> convFailed
-//@ assigns convFailed
+//@ ensures[failure-remembered] (result1 != nil ==> convEverFailed || !convFailed) && (old(convEverFailed) ==> convEverFailed)
+//@ assigns convFailed, convEverFailed
 //@ props C07 C12:safety
 
 //@ unit ConcreteIPv6Proto
@@ -380,7 +384,8 @@ package rib
 //@ ensures[key] result1 == nil ==> result0 != nil && fresh(result0) && result0.Prefix == *e.Prefix && result0.Ipv6Entry != nil
 //@ ensures[err] result1 != nil ==> result0 == nil
 //@ ensures[fails-only-when-conversion-fails] result1 != nil <==> convFailed
-//@ assigns convFailed
+//@ ensures[failure-remembered] (result1 != nil ==> convEverFailed || !convFailed) && (old(convEverFailed) ==> convEverFailed)
+//@ assigns convFailed, convEverFailed
 //@ props C07 C12:safety
 
 //@ unit ConcreteMPLSProto
@@ -389,7 +394,8 @@ package rib
 //@ ensures[ok-when-uint32] istype(e.Label, aft.UnionUint32) ==> true
 //@ ensures[err] result1 != nil ==> result0 == nil
 //@ ensures[fails-only-when-conversion-fails] result1 != nil <==> (convFailed || !istype(e.Label, aft.UnionUint32))
-//@ assigns convFailed
+//@ ensures[failure-remembered] (result1 != nil ==> convEverFailed || !convFailed) && (old(convEverFailed) ==> convEverFailed)
+//@ assigns convFailed, convEverFailed
 //@ props C07 C12:safety
 
 //@ unit ConcreteNextHopGroupProto
@@ -397,7 +403,8 @@ package rib
 //@ ensures[key] result1 == nil ==> result0 != nil && fresh(result0) && result0.Id == *e.Id && result0.NextHopGroup != nil
 //@ ensures[err] result1 != nil ==> result0 == nil
 //@ ensures[fails-only-when-conversion-fails] result1 != nil <==> convFailed
-//@ assigns convFailed
+//@ ensures[failure-remembered] (result1 != nil ==> convEverFailed || !convFailed) && (old(convEverFailed) ==> convEverFailed)
+//@ assigns convFailed, convEverFailed
 //@ props C07 C12:safety
 
 //@ unit ConcreteNextHopProto
@@ -405,7 +412,8 @@ package rib
 //@ ensures[key] result1 == nil ==> result0 != nil && fresh(result0) && result0.Index == *e.Index && result0.NextHop != nil
 //@ ensures[err] result1 != nil ==> result0 == nil
 //@ ensures[fails-only-when-conversion-fails] result1 != nil <==> convFailed
-//@ assigns convFailed
+//@ ensures[failure-remembered] (result1 != nil ==> convEverFailed || !convFailed) && (old(convEverFailed) ==> convEverFailed)
+//@ assigns convFailed, convEverFailed
 //@ props C07 C12:safety
 
 // Ghost witnesses: getpos_T maps the key of an entry of table T to the position in sent(msgCh) of
@@ -508,7 +516,7 @@ package rib
 //@ assert at "if filter[spb.AFTType_NEXTHOP] {" [lemma-done-v6-before-nh] (old(filter[spb.AFTType_ALL]) || old(filter[spb.AFTType_IPV6])) ==> forall k in dom(r.r.Afts.Ipv6Entry) :: old(len(sent(msgCh))) <= getpos_v6[k] && getpos_v6[k] < len(sent(msgCh)) && msg_v6(sent(msgCh)[getpos_v6[k]], r.name) && key_v6(sent(msgCh)[getpos_v6[k]]) == k
 //@ assert at "if filter[spb.AFTType_NEXTHOP] {" [lemma-done-mpls-before-nh] (old(filter[spb.AFTType_ALL]) || old(filter[spb.AFTType_MPLS])) ==> forall k in dom(r.r.Afts.LabelEntry) :: old(len(sent(msgCh))) <= getpos_mpls[k] && getpos_mpls[k] < len(sent(msgCh)) && msg_mpls(sent(msgCh)[getpos_mpls[k]], r.name) && key_mpls(sent(msgCh)[getpos_mpls[k]]) == k
 //@ assert at "if filter[spb.AFTType_NEXTHOP] {" [lemma-done-nhg-before-nh] (old(filter[spb.AFTType_ALL]) || old(filter[spb.AFTType_NEXTHOP_GROUP])) ==> forall k in dom(r.r.Afts.NextHopGroup) :: old(len(sent(msgCh))) <= getpos_nhg[k] && getpos_nhg[k] < len(sent(msgCh)) && msg_nhg(sent(msgCh)[getpos_nhg[k]], r.name) && key_nhg(sent(msgCh)[getpos_nhg[k]]) == k
-//@ assigns convFailed, sent(msgCh), recvd(stopCh), getpos_v4, getpos_v6, getpos_mpls, getpos_nhg, getpos_nh
+//@ assigns convFailed, convEverFailed, sent(msgCh), recvd(stopCh), getpos_v4, getpos_v6, getpos_mpls, getpos_nhg, getpos_nh
 //@ props C07 C11:lock C12:safety
 // ---- END Get (C07) ----
 // ---- FromGetResponses (C07: "rebuilding a RIB from the responses reproduces the source RIB") ----
